@@ -869,6 +869,26 @@ def all_bigrams():
 _BI = all_bigrams()
 
 
+def all_fault_bigrams():
+    out = []
+    for k in _KNAMES:
+        ops = KINDS[k][2]
+        names = sorted(ops)
+        chk = [n for n in names if ops[n][0] == CHK]
+        for a in names:
+            if ops[a][0] == BAD:
+                continue
+            for c in chk:
+                for u in (0.0, 0.02, 0.5, 0.97):
+                    out.append((k, a, u, c))
+                if k in ("ECB", "CBC", "CTR", "HMAC", "UBI") and ops[a][0] == CHK:
+                    out.append((k, a, "collab", c))
+    return out
+
+
+_FB = all_fault_bigrams()
+
+
 def _twin(rng, pb, n0, n1, o, info):
     """Append a copy of objects n0..n1-1 with only the key material replaced; return the index of
     the copy of object o and a matching info dict."""
@@ -900,7 +920,7 @@ def _twin(rng, pb, n0, n1, o, info):
 class C10(Machine):
     prop = "C10"
     title = "one-shot results depend only on the arguments"
-    runs = (3200, 120000)
+    runs = (4000, 150000)
     components = {
         "real": ["crysp.sha SHA1/SHA2/SHA3", "crysp.md MD4/MD5/MD6", "crysp.blake Blake/Blake2 + module singletons",
                  "crysp.keccak Keccak + keccak_* singletons", "crysp.skein Skein/UBI/Tweak", "crysp.threefish",
@@ -927,15 +947,25 @@ class C10(Machine):
             bi = _BI[(idx // 5) % len(_BI)]
             steer = (bi[0], None, bi[1], bi[2])
             kind = steer[0]
+        elif mode == 2:
+            # steered fault bigram: (kind, op a carrying an interrupt early/mid/late or a failing
+            # collaborator, checked op c right after it on the same object)
+            fsteer = _FB[(idx // 5) % len(_FB)]
+            kind = fsteer[0]
         else:
             kind = rng.choices(_KNAMES, _KW)[0]
-        faulty = rng.random() >= 0.4
+        fsteer = fsteer if mode == 2 else None
+        faulty = rng.random() >= 0.4 or fsteer is not None
         fk = {"bad_call": False, "abandon": False, "interrupt": False, "collab_fail": False}
         if faulty:
             for n in fk:
                 fk[n] = rng.random() < 0.55
             if not any(fk.values()):
                 fk[rng.choice(sorted(fk))] = True
+        if fsteer is not None:
+            fk["collab_fail" if fsteer[2] == "collab" else "interrupt"] = True
+            if KINDS[kind][2][fsteer[1]][0] == ABN:
+                fk["abandon"] = True
         w, mk, ops = KINDS[kind]
         want_px = fk["collab_fail"]
         n0 = len(pb.plan["objects"])
@@ -988,6 +1018,17 @@ class C10(Machine):
                 if n:
                     emit(x, c0, n)
             emit(x, c0, steer[3])
+        elif fsteer is not None:
+            before = len(pb.clients[c0])
+            emit(x, c0, fsteer[1])
+            tgt = [t for t in pb.clients[c0][before:] if t["k"] in ("call", "pull")]
+            if fsteer[2] == "collab":
+                tgt = [t for t in tgt if t["k"] == "call" and t.get("obj") == x.obj and "proxy" in x.info]
+                if tgt:
+                    tgt[0]["fault"] = {"kind": "collab_fail", "proxy": x.info["proxy"], "u": rng.random()}
+            elif tgt:
+                tgt[-1 if rng.random() < 0.3 else 0]["fault"] = {"kind": "interrupt", "u": fsteer[2] + rng.random() * 0.02}
+            emit(x, c0, fsteer[3])
         else:
             for _ in range(rng.randint(1, 3)):
                 emit(x, c0, rng.choice(ok_names))
@@ -1017,6 +1058,8 @@ class C10(Machine):
         nf = 0
         if fk["interrupt"] and calls:
             for s in rng.sample(calls, min(len(calls), rng.choice([1, 1, 2]))):
+                if "fault" in s:
+                    continue
                 u = rng.random()
                 if rng.random() < 0.25:
                     u = rng.choice([0.0, 0.001, 0.01, 0.98, 0.999])
@@ -1107,6 +1150,8 @@ class C10(Machine):
                         if p[5] != s.get("c"):
                             probe("shared_object_previous_call_by_other_client")
                         ngrams.add("2|%s|%s|%s" % (kind, p[0], tag))
+                        if p[3] in ("interrupt", "collab_fail"):
+                            ngrams.add("F|%s|%s!%s|%s" % (kind, p[0], p[3], tag))
                         if len(hist_obj) >= 2:
                             ngrams.add("3|%s|%s|%s|%s" % (kind, hist_obj[-2][0], p[0], tag))
                     sibs = [q for q in prev_any if q[0] == kind and q[1] != oi]
@@ -1123,7 +1168,7 @@ class C10(Machine):
         return vs, probes, "|".join(trace), nontrivial, extra
 
     def totals(self):
-        return {"bigrams_total": len(_BI), "trigrams_total": len(_TRI)}
+        return {"bigrams_total": len(_BI), "trigrams_total": len(_TRI), "fault_bigrams_total": len(_FB)}
 
     # -----------------------------------------------------------------------------------------
     def explain_nullpad_dec(self, plan, v):
